@@ -263,12 +263,17 @@ def part_outcomes(ctx, tmp):
         txt, how = mutate_json(JSON_ABI, rnd)
         items.append({"id": f"json{i}", "files": {"iabi.json": txt, "user.vy": JSON_USER}, "target": "user.vy", "how": "json-abi:" + how,
                       "base": "JSON_ABI"})
+    lay_src = CORPUS["with_layout"]["files"]["lay.vy"]
+    for i in range(40 if ctx.tier == "quick" else 400):
+        txt, how = mutate_json(CORPUS["with_layout"]["layout"], rnd)
+        items.append({"id": f"layout{i}", "files": {"layout.json": txt, "lay.vy": lay_src}, "target": "lay.vy", "layout": "layout.json",
+                      "how": "layout-override:" + how, "base": "with_layout"})
     configs = [[False, "gas"], [True, "gas"], [False, "none"], [True, "O3"]] if ctx.tier == "quick" else \
         [[v, l] for v in (False, True) for l in ("none", "gas", "codesize", "O3")]
     nsh = 3
     shards = [items[k::nsh] for k in range(nsh)]
     with ThreadPoolExecutor(max_workers=nsh) as ex:
-        rows = [r for rs in ex.map(lambda k: run_shard(tmp, k, [{kk: v for kk, v in it.items() if kk in ("id", "src", "files", "target", "paths")}
+        rows = [r for rs in ex.map(lambda k: run_shard(tmp, k, [{kk: v for kk, v in it.items() if kk in ("id", "src", "files", "target", "paths", "layout")}
                                                                   for it in shards[k]], 5, configs),
                                    range(nsh)) for r in rs]
     return classify_rows(ctx, rows, items, "mut")
@@ -392,6 +397,8 @@ def classify_rows(ctx, rows, items, part):
                 if it["how"].startswith("json-abi:"):
                     # malformed JSON ABI inputs: one family (no schema validation); keyed by frame only
                     key = f"C20:json-abi:{o['exc']}:{f}"
+                if it["how"].startswith("layout-override:"):
+                    key = f"C20:layout-override:{o['exc']}:{f}"
                 internal.setdefault(key, (it, name, o))
         if r["id"].startswith("base:") and any(o["outcome"] != "output" for o in outs):
             ctx.violation("correspondence-broken", "an unchanged corpus program does not compile", {"program": it["base"], "outcomes": outs})
